@@ -362,13 +362,16 @@ impl Print for bool {
 impl Print for crate::NumberBuf {
 	#[inline(always)]
 	fn fmt_with(&self, f: &mut fmt::Formatter, _options: &Options, _indent: usize) -> fmt::Result {
-		fmt::Display::fmt(self, f)
+		// not `Display::fmt`, which would apply the formatter's width and precision
+		f.write_str(self.as_str())
 	}
 }
 
 /// Formats a string literal according to [RFC8785](https://www.rfc-editor.org/rfc/rfc8785#name-serialization-of-strings).
 pub fn string_literal(s: &str, f: &mut fmt::Formatter) -> fmt::Result {
-	use fmt::Display;
+	// characters are written with `write_char`, not `Display::fmt`, which would apply
+	// the formatter's width and precision to every single character
+	use fmt::Write;
 	f.write_str("\"")?;
 
 	for c in s.chars() {
@@ -389,12 +392,12 @@ pub fn string_literal(s: &str, f: &mut fmt::Formatter) -> fmt::Result {
 				let b = (codepoint & 0x0f00) >> 8;
 				let a = (codepoint & 0xf000) >> 12;
 
-				digit(a).fmt(f)?;
-				digit(b).fmt(f)?;
-				digit(c).fmt(f)?;
-				digit(d).fmt(f)?
+				f.write_char(digit(a))?;
+				f.write_char(digit(b))?;
+				f.write_char(digit(c))?;
+				f.write_char(digit(d))?
 			}
-			_ => c.fmt(f)?,
+			_ => f.write_char(c)?,
 		}
 	}
 
